@@ -181,7 +181,9 @@ func (u *Unit) eval(st *State, e ast.Expr) *Val {
 		id := u.d.fresh("closure", SInt)
 		st.assumeFact(app(">", id, "0"))
 		u.lits[id] = x
-		return &Val{T: u.typeOf(e), S: id}
+		cv := &Val{T: u.typeOf(e), S: id}
+		u.assumePureResult(st, x, cv)
+		return cv
 	case *ast.TypeAssertExpr:
 		v, _ := u.evalTypeAssert(st, x, false)
 		return v
